@@ -65,7 +65,7 @@ Priv(k) == "priv-" \o k
 LenClasses == {"ok", "zero", "one", "odd", "short", "long"}
 Payloads == {"p0", "p1", "nil"}
 Aads == {"none", "a0", "a1"}
-Fields == <<"sig", "protected", "payload", "aad", "key", "siglen", "algid">>
+Fields == <<"sig", "protected", "payload", "argpayload", "aad", "key", "siglen", "algid">>
 FieldIndex(f) == CHOOSE i \in 1..Len(Fields) : Fields[i] = f
 
 None == [struct |-> "none"]
@@ -107,6 +107,8 @@ Values(f) ==
     CASE f = "sig" -> {"flipped"}
       [] f = "protected" -> {"h1"}
       [] f = "payload" -> {"p1", "nil"}
+      \* the verifier names a payload of its own although the object embeds one (Sign1.Verify only)
+      [] f = "argpayload" -> IF ~cfg.det /\ Structure(cfg.alg) = "Sign1" THEN {"p1"} ELSE {}
       [] f = "aad" -> Aads \ {OrigAad}
       [] f = "key" -> {"f", "x"}
       [] f = "siglen" -> LenClasses \ {"ok"}
@@ -121,6 +123,7 @@ Alter(f, v) ==
          [] f = "protected" -> wire' = [wire EXCEPT !.prot.extra = v] /\ UNCHANGED args
          [] f = "payload" -> IF cfg.det THEN args' = [args EXCEPT !.payload = v] /\ UNCHANGED wire
                                         ELSE wire' = [wire EXCEPT !.payload = v] /\ UNCHANGED args
+         [] f = "argpayload" -> args' = [args EXCEPT !.payload = v] /\ UNCHANGED wire
          [] f = "aad" -> args' = [args EXCEPT !.aad = v] /\ UNCHANGED wire
          [] f = "key" -> args' = [args EXCEPT !.key = v] /\ UNCHANGED wire
          [] f = "siglen" -> wire' = [wire EXCEPT !.sig.len = v] /\ UNCHANGED args
